@@ -9,6 +9,7 @@ CLAUSES = {
     "stretch-monotone": "the stretching curve rises monotonically within [-1, 0]; the w-curve runs from -1 to 0; rho-values lie between the neighbouring w-values",
     "stretch2-ends": "Vstretching 2: the w-curve starts at -1 and ends at 0",
     "lookup": "z2s returns 1 <= K <= N-1 and 0 <= A <= 1 with A z[K-1] + (1-A) z[K] == clamp(-Z, z[0], z[N-1])",
+    "grid-vinfo": "a Grid built with explicit Vinfo (N, hc, theta_s, theta_b) carries level depths z_r, z_w with the same ordering / range / interleaving properties",
     "lookup-single-level": "with one level the lookup stays inside the column array",
 }
 BOUNDS = {
@@ -34,6 +35,8 @@ def scenarios(tier):
     for N in (range(2, 5) if q else range(2, 7)):
         out.append(dict(name=f"lookup-N{N}", fn="lookup", params=dict(N=N), cost=N))
     out.append(dict(name="lookup-N1", fn="lookup1", params={}, cost=1))
+    for N in ((2,) if q else (2, 3)):
+        out.append(dict(name=f"grid-vinfo-N{N}", fn="grid_vinfo", params=dict(N=N), cost=10))
     return out
 
 
@@ -140,6 +143,38 @@ def lookup1(W, p):
     uses_upper = W.truth(W.not_(W.eq(a, 1))) if k == 1 else False
     W.prove(k == 0 or (k == 1 and False), "lookup-single-level", dict(K=k, note="K = 1 makes trilinear read level index 1 of a one-level field"))
     return ("lookup1", k)
+
+
+def grid_vinfo(W, p):
+    from harness import romsfile
+
+    roms = W.load("ladim.ROMS")
+    N = p["N"]
+    L, M = 4, 4
+    tmp = W.scratch()
+    h = [[W.real(f"h{j}{i}", 10, 5000) if (j, i) in ((1, 1), (2, 2)) else 100 for i in range(L)] for j in range(M)]
+    ones = [[1] * L for _ in range(M)]
+    gs = romsfile.grid_vars(L, M, N, h=h, mask=ones, pm=[[W.frac(1, 800)] * L for _ in range(M)], pn=[[W.frac(1, 800)] * L for _ in range(M)])
+    romsfile.write(W, tmp / "grid.nc", gs)
+    ts = W.real("theta_s", 0, 10, lo_strict=True)
+    tb = W.real("theta_b", 0, 1)
+    hc = W.real("hc", 0, 10)
+    grid = roms.Grid(filename=str(tmp / "grid.nc"), Vinfo=dict(N=N, hc=hc, theta_s=ts, theta_b=tb))
+    _axioms(W)
+    _axioms(W)
+    zr, zw = W.tolist(grid.z_r), W.tolist(grid.z_w)
+    W.prove(len(zr) == N and len(zw) == N + 1, "grid-vinfo", dict(shape=(len(zr), len(zw))))
+    for (j, i) in ((0, 0), (1, 1)):  # subgrid-local indices of the cells (1,1) and (2,2)
+        hh = h[j + 1][i + 1]
+        colr = [zr[k][j][i] for k in range(N)]
+        colw = [zw[k][j][i] for k in range(N + 1)]
+        conds = [W.lt(colr[k], colr[k + 1]) for k in range(N - 1)] + [W.lt(colw[k], colw[k + 1]) for k in range(N)]
+        conds += [W.all([W.le(-hh, v), W.le(v, 0)]) for v in colr + colw]
+        conds += [W.eq(colw[0], -hh), W.eq(colw[N], 0)]
+        conds += [W.all([W.lt(colw[k], colr[k]), W.lt(colr[k], colw[k + 1])]) for k in range(N)]
+        for n, c in enumerate(conds):
+            W.prove(c, "grid-vinfo", dict(cell=(j, i), part=n))
+    return ("grid-vinfo", N)
 
 
 def signature(v, scen):
